@@ -6,7 +6,7 @@ package query
 //verif:harness VerifC07Order mode=bv tier=quick split=4
 //verif:harness VerifC07LimitOffset mode=bv tier=quick split=6
 //verif:harness VerifC07Percent mode=real tier=quick split=4
-//verif:harness VerifC07PercentLarge mode=real tier=quick
+//verif:harness VerifC07PercentLarge mode=bv tier=quick split=3
 //verif:setup VerifC07Setup2
 //verif:harness VerifC07TwoKeys mode=bv tier=quick split=6
 
@@ -48,23 +48,27 @@ func VerifC07Setup() {
 	}
 }
 
-// LIMIT p PERCENT on a table of 120 rows (more rows than the number 100), integral p in [-5, 400]:
-// the kept prefix has exactly min(n, max(0, ceil(n*p/100))) rows.
+// LIMIT p PERCENT on tables of 25, 100 and 120 rows, every whole percentage in [-5, 130] and the
+// same plus one half: the kept prefix has exactly min(n, max(0, ceil(n*p/100))) rows.  The percentage
+// and the row count are concrete here, so the float arithmetic of the implementation is executed bit
+// for bit (IEEE doubles, not the exact rationals of the symbolic PERCENT harness): a product that is a
+// whole number must not be rounded up by a detour through p/100.
 func VerifC07PercentLarge() {
 	tx := verifNewTx()
 	scope := NewReferenceScope(tx)
-	n := len(verifC07LargeRows)
-	verifTempTable(scope, "big", []string{"id"}, verifC07LargeRows)
-	p := verifInt64("percent")
-	verifAssume(p >= -5)
-	verifAssume(p <= 400)
-	verifVar(scope, "p", value.NewFloat(float64(p)))
+	n := [3]int{25, 100, 120}[verifChoice("rows", 3)]
+	verifTempTable(scope, "big", []string{"id"}, verifC07LargeRows[:n])
+	p2 := int64(verifChoice("half-percents", 272)) - 10 // p = p2 / 2
+	verifVar(scope, "p", value.NewFloat(float64(p2)/2))
 	view, err := Select(verifCtx(), scope, verifC07PctLarge)
 	verifAssert("select succeeds", err == nil)
+	if err != nil {
+		return
+	}
 	got := view.RecordLen()
 	want := int64(0)
-	if p > 0 {
-		want = (int64(n)*p + 99) / 100
+	if p2 > 0 {
+		want = (int64(n)*p2 + 199) / 200
 		if want > int64(n) {
 			want = int64(n)
 		}
